@@ -9,9 +9,16 @@
     metadata encoders are always followed by a propagating position query.  [C15_lost_in_drop] exhibits
     the one place where this fails in the model: Directory::to_writer on its own (sync, with a codec)
     ends with a drop-time write — the known finding D6.
-    Partial: the readers' fault behaviour (every read/seek is followed by [?]) and panics are decided by
-    the fault-injection oracle only (every fault index k < N of every scenario, sync and async). *)
-Require Import PM.Base PM.Oracles PM.Params PM.Directory PM.Stream PM.DirWriter PM.Archive PM.WriterLogProofs.
+    Readers: [IOReader.open_io] is the reader over an abstract I/O interface in which every byte is obtained by a
+    [fetch off len] request; [C15_reader_is_the_model] — on an ideal stream it computes exactly what
+    [from_reader] builds its archive from; [C15_reader_fail_stop] — if ANY window the open requests (the 127
+    header bytes, the metadata section, the root directory, every leaf directory visited; ReadWindows.v) fails,
+    the open returns an error: not a success, not a crash; [C15_reader_degrades] — whatever subset of
+    requests fails, the result is the fault-free success, the fault-free crash (there is none: C08) or an error.
+    Left to the fault-injection oracle (every fault index k < N of every scenario, sync and async): tile
+    lookups on a failing stream, the writers' panics, and that the implementation's readers are built from
+    fetches as modelled (tied by the fault-free correspondence and the fault enumeration). *)
+Require Import PM.Base PM.Oracles PM.Params PM.Directory PM.Stream PM.DirWriter PM.Archive PM.WriterLogProofs PM.Header PM.TileManager PM.DirReader PM.ReadWindows PM.IOReader PM.IOReaderProofs.
 Open Scope N_scope.
 
 Theorem C15_archive_writer : forall cx asy p st st', to_writer cx asy p st = Ok st' ->
@@ -35,6 +42,38 @@ Proof.
          [], (ws_new [] 0).
   eexists. eexists. exists 2%nat. vm_compute. repeat split; reflexivity.
 Qed.
+
+(** the reader over the I/O interface is the reader of the model *)
+Theorem C15_reader_is_the_model : forall cx img r,
+  from_reader cx img r =
+  (do (hm, tiles) <- open_io cx (img_fetch img) r;
+   let '(h, meta) := hm in
+   do s <- register_tiles (h_data_off h) tiles (tm_empty (Some img));
+   Ok (mkPM (h_ttype h) (h_tcomp h) (h_icomp h) (h_minz h) (h_maxz h) (h_cz h)
+            (h_min_lon h) (h_min_lat h) (h_max_lon h) (h_max_lat h) (h_clon h) (h_clat h) meta s)).
+Proof. intros cx img r. exact (open_io_ideal cx img r eq_refl). Qed.
+
+(** a fault on any window the open requests makes the open return an error *)
+Theorem C15_reader_fail_stop : forall cx bad, (forall b c, json_parse cx b <> Crash c) -> forall img r ws,
+  open_windows cx img r = Ok ws -> (exists w, In w ws /\ bad (fst w) (snd w) = true) ->
+  exists e, open_io cx (fail_on bad (img_fetch img)) r = Err e.
+Proof. intros cx bad Hj img r ws. exact (open_io_fail_stop cx bad Hj img r ws eq_refl). Qed.
+
+(** whatever requests fail: the fault-free result, or an error *)
+Theorem C15_reader_degrades : forall cx bad fetch r,
+  match open_io cx (fail_on bad fetch) r with
+  | Ok x => open_io cx fetch r = Ok x
+  | Crash c => open_io cx fetch r = Crash c
+  | Err _ => True
+  end.
+Proof. exact open_io_degrades. Qed.
+
+(** non-vacuity: the empty archive written by the model; failing the root directory window alone makes the open fail *)
+Example C15_reader_example :
+  let img := (match to_bytes ctx_id false (pm_new None) with Ok b => b | _ => [] end) in
+  (open_windows ctx_id img full_range, open_io ctx_id (fail_on (fun o _ => o =? 127) (img_fetch img)) full_range)
+  = (Ok [(0, 127); (128, 2); (127, 1)], Err EOther).
+Proof. vm_compute. reflexivity. Qed.
 
 (** in the model no I/O path ends in a panic: results are Ok / Err / Crash and the writers' Crash sites are
     arithmetic only (see C08 for the readers) *)
